@@ -40,8 +40,13 @@ theorem build_hscale (T : Tables) (fd : FontDict) : (modelFont T fd).hscale = wi
     cases getMetrics T.fm (fd.baseFont.getD "unknown") <;> rfl
   · rfl
 
+theorem descMissingWidth_eq (fd : FontDict) : descMissingWidth fd.desc = missingWidth fd := by
+  unfold descMissingWidth missingWidth
+  cases fd.desc <;> rfl
+
 theorem build_defaultWidth (T : Tables) (fd : FontDict) : (modelFont T fd).defaultWidth = missingWidth fd := by
-  unfold modelFont build missingWidth descMissingWidth
+  rw [← descMissingWidth_eq]
+  unfold modelFont build
   dsimp only
   cases fd.isType3
   · simp only [Bool.false_eq_true, if_false]
@@ -66,10 +71,6 @@ theorem build_widthsStr (T : Tables) (fd : FontDict) :
   · simp only [Bool.false_eq_true, if_false]
     cases getMetrics T.fm (fd.baseFont.getD "unknown") <;> rfl
   · rfl
-
-theorem name2unicode_notdef (gl : GlyphList) (h : glLookup gl [] = none) :
-    name2unicode gl (some ['.', 'n', 'o', 't', 'd', 'e', 'f']) = none := by
-  simp [name2unicode, beforeDot, splitOn, comp, h, uniPrefix, List.isPrefixOf]
 
 theorem build_cid2unicode (T : Tables) (fd : FontDict) :
     (modelFont T fd).cid2unicode =
